@@ -21,7 +21,8 @@ pub struct DOut {
 // ------------------------------------------------------------------- C04 ---
 
 // incl. neighbours above 2^53 (not representable as doubles) and the two largest u64 values
-const IDS: [&str; 16] = ["0", "1", "2", "10", "a", "b", "A", "a-", "-", "1a", "a1", "18446744073709551615", "18446744073709551614", "9007199254740992", "9007199254740993", "9"];
+// ... and identifiers that begin with a hyphen (`1.0.0--1` is the alphanumeric identifier `-1`)
+const IDS: [&str; 19] = ["0", "1", "2", "10", "a", "b", "A", "a-", "-", "1a", "a1", "18446744073709551615", "18446744073709551614", "9007199254740992", "9007199254740993", "9", "-1", "-a", "--"];
 
 pub fn c04_universe(tier: &str) -> Vec<Version> {
     let mut tags: Vec<String> = vec![String::new()];
@@ -410,7 +411,7 @@ fn rcmp_f64(a: &Version, b: &Version) -> Ordering {
 // ------------------------------------------------------------------- C16 ---
 
 pub fn c16_universe() -> Vec<Version> {
-    let tags = ["", "0", "1", "a", "a.0", "a.1", "b", "0.a", "1.0", "a.0.1", "a.0.b"];
+    let tags = ["", "0", "1", "a", "a.0", "a.1", "b", "0.a", "1.0", "a.0.1", "a.0.b", "-1", "-a"];
     let mut out = vec![];
     for ma in 0..3u64 {
         for mi in 0..3u64 {
@@ -545,9 +546,20 @@ pub fn run_c16(_tier: &str, sink: &Sink) -> DOut {
     let rows: Vec<Vec<u8>> = fx["rows"].as_array().unwrap().iter().map(|r| r.as_str().unwrap().as_bytes().to_vec()).collect();
     let nontrivial = AtomicU64::new(0);
     let per_kind: Vec<AtomicU64> = (0..8).map(|_| AtomicU64::new(0)).collect();
+    // the parsed twin of every universe text: diff between parsed values must be the diff between
+    // the values the texts denote (a parser that reads a tag differently changes diff's answer)
+    let twins: Vec<Option<Version>> = u.iter().map(|v| guarded(|| Version::parse(vtext_full(v))).ok().and_then(|r| r.ok())).collect();
     (0..n).into_par_iter().for_each(|i| {
         for j in 0..n {
             check_c16_pair(&u[i], &u[j], Some(rows[i][j]), sink);
+            if let (Some(a), Some(b)) = (&twins[i], &twins[j]) {
+                if let Ok(got) = guarded(|| a.diff(b)) {
+                    let gt = diff_text(got);
+                    if gt.as_deref() != rdiff(&u[i], &u[j]) {
+                        sink.report("value-parsed", format!("a={}|b={}", vtext_full(&u[i]), vtext_full(&u[j])), json!({"engine":"D","kind":"c16-parsed","a":vtext_full(&u[i]),"b":vtext_full(&u[j])}), format!("diff of the parsed texts = {:?}", gt), format!("{:?}", rdiff(&u[i], &u[j])));
+                    }
+                }
+            }
             let k = match rdiff(&u[i], &u[j]) {
                 None => 0,
                 Some("major") => 1,
@@ -774,8 +786,14 @@ pub fn run_c14(tier: &str, sink: &Sink) -> DOut {
 macro_rules! chk3 {
     ($t:ty, $a:expr, $b:expr, $c:expr, $sink:expr) => {{
         let (a, b, c): ($t, $t, $t) = ($a, $b, $c);
-        let v = Version::from((a, b, c));
         let (x, y, z) = (a as u64, b as u64, c as u64);
+        let v = match guarded(|| Version::from((a, b, c))) {
+            Ok(v) => v,
+            Err(m) => {
+                $sink.report("fields3", format!("type={}|t=({},{},{})|panic", stringify!($t), a, b, c), json!({"engine":"D","kind":"c18","type":stringify!($t),"t":[x, y, z]}), format!("the conversion panics: {}", m), format!("{}.{}.{}", x, y, z));
+                ver(x, y, z, "")
+            }
+        };
         if v.major != x || v.minor != y || v.patch != z || !v.pre_release.is_empty() || !v.build.is_empty() {
             $sink.report("fields3", format!("type={}|t=({},{},{})", stringify!($t), a, b, c), json!({"engine":"D","kind":"c18","type":stringify!($t),"t":[x, y, z]}), vtext_full(&v), format!("{}.{}.{}", x, y, z));
         }
@@ -785,8 +803,14 @@ macro_rules! chk3 {
 macro_rules! chk4 {
     ($t:ty, $a:expr, $b:expr, $c:expr, $d:expr, $sink:expr) => {{
         let (a, b, c, d): ($t, $t, $t, $t) = ($a, $b, $c, $d);
-        let v = Version::from((a, b, c, d));
         let (x, y, z, w) = (a as u64, b as u64, c as u64, d as u64);
+        let v = match guarded(|| Version::from((a, b, c, d))) {
+            Ok(v) => v,
+            Err(m) => {
+                $sink.report("fields4", format!("type={}|t=({},{},{},{})|panic", stringify!($t), a, b, c, d), json!({"engine":"D","kind":"c18","type":stringify!($t),"t":[x, y, z, w]}), format!("the conversion panics: {}", m), format!("{}.{}.{}-{}", x, y, z, w));
+                ver(x, y, z, &w.to_string())
+            }
+        };
         let ok = v.major == x && v.minor == y && v.patch == z && v.build.is_empty() && ids_same(&v.pre_release, &[nodejs_semver::Identifier::Numeric(w)]);
         if !ok {
             $sink.report("fields4", format!("type={}|t=({},{},{},{})", stringify!($t), a, b, c, d), json!({"engine":"D","kind":"c18","type":stringify!($t),"t":[x, y, z, w]}), vtext_full(&v), format!("{}.{}.{}-{}", x, y, z, w));
@@ -839,7 +863,7 @@ pub fn run_c18(tier: &str, sink: &Sink) -> DOut {
         for b in 0..=127i8 {
             for c in 0..=127i8 {
                 let v = chk3!(i8, a, b, c, sink);
-                let v8 = Version::from((a as u8, b as u8, c as u8));
+                let v8 = guarded(|| Version::from((a as u8, b as u8, c as u8))).unwrap_or_else(|_| ver(a as u64, b as u64, c as u64, ""));
                 if !same_fields(&v, &v8) {
                     sink.report("cross-type", format!("i8/u8|t=({},{},{})", a, b, c), json!({"engine":"D","kind":"c18","type":"i8","t":[a as u64, b as u64, c as u64]}), vtext_full(&v), vtext_full(&v8));
                 }
@@ -896,7 +920,7 @@ pub fn run_c18(tier: &str, sink: &Sink) -> DOut {
                     for &c in &vals {
                         let v = chk3!($t, a, b, c, sink);
                         against_parse(&v, &format!("{}.{}.{}", a, b, c), "fields3", stringify!($t), sink);
-                        let w = Version::from((a as u64, b as u64, c as u64));
+                        let w = guarded(|| Version::from((a as u64, b as u64, c as u64))).unwrap_or_else(|_| ver(a as u64, b as u64, c as u64, ""));
                         if !same_fields(&v, &w) {
                             sink.report("cross-type", format!("{}/u64|t=({},{},{})", stringify!($t), a, b, c), json!({"engine":"D","kind":"c18","type":stringify!($t),"t":[a as u64, b as u64, c as u64]}), vtext_full(&v), vtext_full(&w));
                         }
@@ -906,7 +930,7 @@ pub fn run_c18(tier: &str, sink: &Sink) -> DOut {
                             if (a as u64) <= MAX_SAFE && (b as u64) <= MAX_SAFE && (c as u64) <= MAX_SAFE {
                                 against_parse(&q, &format!("{}.{}.{}-{}", a, b, c, d), "fields4", stringify!($t), sink);
                             }
-                            let w = Version::from((a as u64, b as u64, c as u64, d as u64));
+                            let w = guarded(|| Version::from((a as u64, b as u64, c as u64, d as u64))).unwrap_or_else(|_| ver(a as u64, b as u64, c as u64, &(d as u64).to_string()));
                             if !same_fields(&q, &w) {
                                 sink.report("cross-type", format!("{}/u64|t=({},{},{},{})", stringify!($t), a, b, c, d), json!({"engine":"D","kind":"c18","type":stringify!($t),"t":[a as u64, b as u64, c as u64, d as u64]}), vtext_full(&q), vtext_full(&w));
                             }
@@ -964,6 +988,19 @@ pub fn replay(prop: &str, case: &Value, sink: &Sink) {
             let l: Vec<Version> = case["list"].as_array().unwrap().iter().map(vfrom).collect();
             let r: Vec<&Version> = l.iter().collect();
             check_list(&r, sink);
+        }
+        ("C16", "c16-parsed") => {
+            let (ta, tb) = (case["a"].as_str().unwrap_or(""), case["b"].as_str().unwrap_or(""));
+            if let (Some(da), Some(db), Ok(a), Ok(b)) = (crate::engine_b::recognise(ta), crate::engine_b::recognise(tb), Version::parse(ta), Version::parse(tb)) {
+                let ra = Version { major: da.major, minor: da.minor, patch: da.patch, pre_release: da.pre, build: da.build };
+                let rb = Version { major: db.major, minor: db.minor, patch: db.patch, pre_release: db.pre, build: db.build };
+                if let Ok(got) = guarded(|| a.diff(&b)) {
+                    let gt = diff_text(got);
+                    if gt.as_deref() != rdiff(&ra, &rb) {
+                        sink.report("value-parsed", format!("a={}|b={}", ta, tb), case.clone(), format!("diff of the parsed texts = {:?}", gt), format!("{:?}", rdiff(&ra, &rb)));
+                    }
+                }
+            }
         }
         ("C16", "c16-pair") => {
             let (a, b) = (vfrom(&case["a"]), vfrom(&case["b"]));
